@@ -82,7 +82,7 @@ func verifC07(c *drv.Ctx) {
 	if c.Thorough() {
 		scs = []sc{{3, 1, 2, false}, {3, 2, 2, false}, {3, 3, 2, false}, {4, 2, 1, false}, {4, 3, 1, true}, {2, 2, 3, false}, {3, 2, 2, true}}
 	} else {
-		scs = []sc{{2, 1, 2, false}, {2, 2, 2, false}, {3, 2, 1, false}, {3, 3, 1, true}, {2, 2, 2, true}}
+		scs = []sc{{2, 1, 2, false}, {3, 2, 2, false}, {3, 3, 1, true}, {2, 2, 2, true}}
 	}
 	c.R.Rule = "request streams = every outcome pattern over {ok, request error, build error, write error} up to the stated length, run through the REAL startScanEngine + packet engine " +
 		"(packetSource, packetMultiGenerator(N), MergeBufferDataChan, sender, receiver, mergeErrChan, LIFO buffer pool, channel capacities 100->2) under the controlled scheduler; " +
@@ -99,15 +99,19 @@ func verifC07(c *drv.Ctx) {
 			}
 			seen[name] = true
 			idx++
-			if !c.Mine(idx) || c.Expired() {
+			if c.Expired() {
 				return
 			}
+			// every shard takes its share of EVERY pattern's schedule tree (top-level subtrees k mod n): the
+			// patterns differ a lot in cost, sharding by pattern left most cores idle at the end
 			st, cfg, main := vPacketScenario(p, s.workers, 300*time.Millisecond, false, s.slow, 2)
-			r := vs.Explore(vs.Options{Bound: s.bound, Iterate: true, Deadline: c.Deadline}, cfg, main, c07check(st, p))
+			r := vs.Explore(vs.Options{Bound: s.bound, Iterate: true, Deadline: c.Deadline, Shard: c.Shard, NShard: c.NShard}, cfg, main, c07check(st, p))
 			c.Explore(name, r, func(v vs.Violation) string {
 				return fmt.Sprintf("pipeline:pattern=%s,workers=%d:%s", vPatStr(p), s.workers, strings.SplitN(v.Msg, ":", 2)[0])
 			})
-			c.Nontrivial(1)
+			if c.Shard == 0 {
+				c.Nontrivial(1)
+			}
 			if idx%53 == int(c.Seed%53) || len(c.R.Samples) == 0 {
 				c.Sample(map[string]any{"scenario": name, "executions": r.Execs, "bound_completed": r.BoundCompleted, "distinct_wire_orders_and_error_orders": len(r.Outcomes), "max_threads": r.MaxThreads})
 			}
